@@ -311,6 +311,23 @@ def declare_factory(w):
                        requires=lambda a, h: [f for f in fac_wf_all(h, a.self)], modifies=LCMOD,
                        cases=[Case("ok", post=lc_post), _interrupt(lambda a, h, h2, e: lc_post(a, h, h2, None)[:3])], props=["C03", "C04", "C07", "C10"]))
     c.ghost_init = GH(lambda a, h: gw_of(h, a.self))
+
+    # publication order (other threads wake on the event / the endmarker before _local_close returns):
+    #  - when the endmarker is queued, a remote error has already been recorded (a woken receive() must raise it, not EOFError: C07)
+    #  - when _receiveclosed is set, the channel already shows its final state (a woken waitclose() caller sees isclosed() and a refusing send(): C03)
+    def lc_at_put(a, h0, call, hnow):
+        ch = chan_of(h0, a.self, a.id)
+        return [("remote-error-recorded-before-the-endmarker-is-queued",
+                 z3.Implies(z3.And(registered(h0, a.self, a.id), call.self == C(h0, ch, "_items"), call.item == ENDM, a.remoteerror != 0),
+                            slen(C(hnow, ch, "_remoteerrors")) == slen(C(h0, ch, "_remoteerrors")) + 1))]
+
+    def lc_at_set(a, h0, call, hnow):
+        ch = chan_of(h0, a.self, a.id)
+        return [("final-state-visible-before-waiters-are-woken",
+                 z3.Implies(z3.And(registered(h0, a.self, a.id), call.self == C(h0, ch, "_receiveclosed")),
+                            z3.And(C(hnow, ch, "_closed") == z3.Or(C(h0, ch, "_closed"), z3.Not(a.sendonly)), z3.Not(registered(hnow, a.self, a.id)))))]
+
+    c.at_call = {"model:Queue.put": lc_at_put, "model:Event.set": lc_at_set}
     return w
 
 
@@ -652,6 +669,8 @@ def declare_channel_api(w):
                               rcase("unsupported-error-object", "DumpError", lambda a, h: z3.BoolVal(False), lambda a, h, h2, e: []), _interrupt()],
                        props=["C03", "C06", "C18", "C07"]))
     c.ghost_init = GH(lambda a, h: C(h, a.self, "gateway"))
+    # close(): the channel is marked closed and the close frame is on the wire before anybody waiting on the channel is woken
+    c.at_call = {"model:Event.set": lambda a, h0, call, hnow: [("closed-before-waiters-are-woken", z3.Implies(call.self == C(h0, a.self, "_receiveclosed"), C(hnow, a.self, "_closed")))]}
     return w
 
 
